@@ -60,7 +60,104 @@ def gen_resources(rng, classes, k=None):
             for c in rng.sample(classes, min(k, len(classes)))}
 
 
-def gen_ac_query(rng, world, version=None):
+def fitting_resources(rng, view, provider, k):
+    """a resources dict that the given provider can satisfy right now"""
+    out = {}
+    invs = sorted(view.inv[provider].items())
+    rng.shuffle(invs)
+    for rc, f in invs[:k]:
+        st = f['step_size']
+        lo = ((f['min_unit'] + st - 1) // st) * st
+        for amt in (lo, lo + st):
+            if view.room(provider, rc, amt, 'must'):
+                out[rc] = amt
+                break
+    return out
+
+
+def _aim_group(rng, view, g, p, v, suffixed, aggs, extra=None):
+    """shape group g so that provider p can satisfy it"""
+    r = fitting_resources(rng, view, p, 1 if suffixed else
+                          rng.choice([1, 1, 2]))
+    if not r:
+        return
+    g['resources'] = r
+    if not suffixed and extra is not None:
+        r2 = fitting_resources(rng, view, extra, 1)
+        for rc, amt in r2.items():
+            g['resources'].setdefault(rc, amt)
+    if g['required'] and view.traits[p] - {TRAITS[0]} and \
+            rng.random() < 0.7:
+        have = sorted(view.traits[p] - {TRAITS[0]})
+        g['required'] = [{rng.choice(have)}]
+        if v >= 39 and rng.random() < 0.3:
+            g['required'].append({rng.choice(have), rng.choice(TRAITS[1:])})
+    if g['forbidden'] and rng.random() < 0.7:
+        lack = sorted(set(TRAITS[1:]) - view.traits[p])
+        g['forbidden'] = {rng.choice(lack)} if lack else set()
+        g['required'] = [t for t in g['required']
+                         if not t <= g['forbidden']]
+    if g['member_of'] and view.aggs[p] and rng.random() < 0.7:
+        g['member_of'] = [{rng.choice(sorted(view.aggs[p]))}]
+        if v >= 24 and rng.random() < 0.3:
+            g['member_of'].append({rng.choice(sorted(view.aggs[p])),
+                                   rng.choice(aggs)})
+    if g['forbidden_aggs'] and rng.random() < 0.7:
+        lack = sorted(set(aggs) - view.aggs[p])
+        g['forbidden_aggs'] = {rng.choice(lack)} if lack else set()
+    if g['in_tree'] and rng.random() < 0.7:
+        g['in_tree'] = rng.choice(view.tree[view.top[p]])
+
+
+def gen_ac_query(rng, world, version=None, view=None):
+    q = _gen_ac_query(rng, world, version)
+    if view is None or not view.roots:
+        return q
+    # state-aware shaping: aim the groups at one anchor tree (and the
+    # sharing providers usable from it) so that the interesting paths are
+    # non-empty far more often than with blind parameters
+    v = q['version']
+    r = rng.choice(view.roots)
+    usable = view.usable(r)
+    foreign = [u for u in usable if u not in view.tree[r]]
+    for s, g in q['groups'].items():
+        if rng.random() > 0.85:
+            continue
+        if foreign and rng.random() < 0.45:
+            p = rng.choice(foreign)
+        else:
+            p = rng.choice(usable)
+        if g['resources']:
+            _aim_group(rng, view, g, p, v, bool(s), world.aggs,
+                       extra=rng.choice(usable) if rng.random() < 0.6
+                       else None)
+        elif g['required'] and view.traits[p] - {TRAITS[0]}:
+            g['required'] = [{rng.choice(sorted(view.traits[p] -
+                                                {TRAITS[0]}))}]
+    if (q['root_required'] or q['root_forbidden']) and rng.random() < 0.75:
+        have = sorted(view.traits[r] - {TRAITS[0]})
+        q['root_required'] = {rng.choice(have)} if have and \
+            rng.random() < 0.6 else set()
+        others = sorted(set(TRAITS) - view.traits[r])
+        q['root_forbidden'] = {rng.choice(others)} if others and \
+            rng.random() < 0.7 else set()
+        if not q['root_required'] and not q['root_forbidden']:
+            if TRAITS[0] not in view.traits[r]:
+                q['root_forbidden'] = {TRAITS[0]}
+    # normalise: a term wholly covered by forbidden traits is a 400
+    for g in q['groups'].values():
+        g['required'] = [t for t in g['required']
+                         if not t <= g['forbidden']]
+        if not g['resources'] and not (
+                g['required'] or g['forbidden'] or g['member_of'] or
+                g['forbidden_aggs'] or g['in_tree']):
+            g['required'] = [{TRAITS[1]}]
+            g['forbidden'] = set()
+    q['root_forbidden'] -= q['root_required']
+    return q
+
+
+def _gen_ac_query(rng, world, version=None):
     v = version if version is not None else rng.choice(AC_VERSIONS)
     q = {'version': v, 'groups': {}, 'group_policy': None,
          'root_required': set(), 'root_forbidden': set(),
@@ -121,12 +218,15 @@ def gen_ac_query(rng, world, version=None):
         q['group_policy'] = rng.choice(['none', 'isolate', 'none'])
     elif n_same_provider == 1 and rng.random() < 0.3:
         q['group_policy'] = rng.choice(['none', 'isolate'])
-    if v >= 35 and rng.random() < 0.25:
+    if v >= 35 and rng.random() < 0.35:
         pool = TRAITS[1:]
         if rng.random() < 0.6:
             q['root_required'].add(rng.choice(pool))
         if rng.random() < 0.5:
-            c = [t for t in pool if t not in q['root_required']]
+            # (the documented idiom root_required=!MISC_SHARES_VIA_AGGREGATE
+            # keeps sharing providers from anchoring a candidate)
+            c = [t for t in pool + [TRAITS[0], TRAITS[0]]
+                 if t not in q['root_required']]
             q['root_forbidden'].add(rng.choice(c))
         if not q['root_required'] and not q['root_forbidden']:
             q['root_required'].add(rng.choice(pool))
